@@ -355,7 +355,7 @@ func genPackagesDoc(t *rapid.T) TypedDocCase {
 		}
 		for _, f := range []string{"Depends", "Pre-Depends", "Suggests", "Conflicts", "Breaks", "Replaces", "Built-Using"} {
 			if d := depOrNil(t, f, 2); d != nil {
-				b.line(f + ": " + renderDep(*d, canonicalSpacer))
+				b.dep(t, f, *d) // single-line, folded after commas, or one relation per line: the accessors get the raw value
 				if i == n-1 {
 					accDeps[f] = *d
 				}
@@ -443,7 +443,7 @@ func genSourcesDoc(t *rapid.T) TypedDocCase {
 		}
 		for _, f := range []string{"Build-Depends", "Build-Depends-Arch", "Build-Depends-Indep"} {
 			if d := depOrNil(t, f, 2); d != nil {
-				b.line(f + ": " + renderDep(*d, canonicalSpacer))
+				b.dep(t, f, *d) // single-line, folded after commas, or one relation per line: the accessors get the raw value
 				if i == n-1 {
 					accDeps[f] = *d
 				}
@@ -876,7 +876,7 @@ func genPackageListLine(t *rapid.T, label, bin string) string {
 
 var specC10 = Register(&Spec[TypedDocCase]{
 	Prop: "C10", Name: "typed",
-	Rule:  "six document kinds rendered from a field model in the layout the Debian tools emit: .dsc (Binary 'a, b, c' single-line or folded, Architecture list, Uploaders, Build-Depends* single-line / folded / wrap-and-sort, Package-List lines of 4 to 8 columns (arch=, profile=, protected=, essential=), Checksums-Sha1/-Sha256, Files), .changes (space-separated Binary, Closes, multi-line Description and Changes with ' .', 5-column Files), debian/control (source paragraph + 1..4 binary paragraphs, folded Uploaders and dependency fields with substvars, Essential, multi-line Description), Packages and Sources indexes of 1..4 paragraphs or (one in 25) the same paragraphs repeated to 1025 .. 4100; Packages (Source 'name (ver)', Installed-Size, folded Tag, Build-Ids, dependency accessors), Sources (folded Binary, Standards-Version, Vcs-*, Directory, accessors) and DEBIAN/control (decoded from text and, packed into control.tar / control.tar.gz of a minimal .deb, through deb.Load; one in twelve with a description that takes the control file beyond 32 KiB); unknown X- fields sprinkled in; the bufio.Reader handed to the Parse* functions has a generated size 16..65536 and reads from a plain, one-byte, half or data-with-EOF reader. Oracle: every struct field whose Debian field is in the model equals the model (scalars verbatim / reader convention, versions by parts, architectures by triple, dependencies against the model AST, comma/space lists as trimmed elements, file lists as (algorithm, hash, size, name[, section, priority])), accessors agree with the model. Non-trivial: a folded field, >= 2 binaries, >= 2 files or >= 2 paragraphs; distinct by (kind, text, buffer size).",
+	Rule:  "six document kinds rendered from a field model in the layout the Debian tools emit: .dsc (Binary 'a, b, c' single-line or folded, Architecture list, Uploaders, Build-Depends* single-line / folded / wrap-and-sort, Package-List lines of 4 to 8 columns (arch=, profile=, protected=, essential=), Checksums-Sha1/-Sha256, Files), .changes (space-separated Binary, Closes, multi-line Description and Changes with ' .', 5-column Files), debian/control (source paragraph + 1..4 binary paragraphs, folded Uploaders and dependency fields with substvars, Essential, multi-line Description), Packages and Sources indexes of 1..4 paragraphs or (one in 25) the same paragraphs repeated to 1025 .. 4100; Packages (Source 'name (ver)', Installed-Size, folded Tag, Build-Ids, dependency accessors over single-line, folded and one-relation-per-line fields), Sources (folded Binary, Standards-Version, Vcs-*, Directory, accessors) and DEBIAN/control (decoded from text and, packed into control.tar / control.tar.gz of a minimal .deb, through deb.Load; one in twelve with a description that takes the control file beyond 32 KiB); unknown X- fields sprinkled in; the bufio.Reader handed to the Parse* functions has a generated size 16..65536 and reads from a plain, one-byte, half or data-with-EOF reader. Oracle: every struct field whose Debian field is in the model equals the model (scalars verbatim / reader convention, versions by parts, architectures by triple, dependencies against the model AST, comma/space lists as trimmed elements, file lists as (algorithm, hash, size, name[, section, priority])), accessors agree with the model. Non-trivial: a folded field, >= 2 binaries, >= 2 files or >= 2 paragraphs; distinct by (kind, text, buffer size).",
 	Check: checkTypedDoc,
 })
 
